@@ -13,11 +13,14 @@ pub mod c02;
 pub mod c03;
 pub mod c04;
 pub mod c05;
+pub mod c06;
 pub mod c07;
 pub mod c08;
 pub mod c09;
 pub mod c10;
 pub mod c11;
+pub mod c12;
+pub mod c13;
 pub mod pc;
 pub mod c14;
 pub mod general;
@@ -39,7 +42,7 @@ pub const FOCUS_ATTEMPT: Granularity = Granularity::Focus(
     ],
 );
 
-pub const PROPS: &[&str] = &["C01", "C02", "C03", "C04", "C05", "C07", "C08", "C09", "C10", "C11", "C14"];
+pub const PROPS: &[&str] = &["C01", "C02", "C03", "C04", "C05", "C06", "C07", "C08", "C09", "C10", "C11", "C12", "C13", "C14"];
 
 pub fn jobs(prop: &str, tier: Tier) -> Vec<Job> {
     match prop {
@@ -48,11 +51,14 @@ pub fn jobs(prop: &str, tier: Tier) -> Vec<Job> {
         "C03" => c03::jobs(tier),
         "C04" => c04::jobs(tier),
         "C05" => c05::jobs(tier),
+        "C06" => c06::jobs(tier),
         "C07" => c07::jobs(tier),
         "C08" => c08::jobs(tier),
         "C09" => c09::jobs(tier),
         "C10" => c10::jobs(tier),
         "C11" => c11::jobs(tier),
+        "C12" => c12::jobs(tier),
+        "C13" => c13::jobs(tier),
         "C14" => c14::jobs(tier),
         _ => vec![],
     }
